@@ -638,6 +638,9 @@ func (c *CEnv) call(e *Expr) *CVal {
 		return &CVal{T: And(Lt(IntLit(0), r), Lt(r, c.st.alloc))}
 	case "real":
 		return &CVal{T: ToReal(arg(0).T)}
+	case "trunc":
+		// Go's float -> integer conversion (same uninterpreted symbol the executor uses for ssa.Convert)
+		return &CVal{T: App("trunc", SInt, arg(0).T)}
 	case "abs":
 		a := arg(0).T
 		zero := IntLit(0)
